@@ -51,7 +51,7 @@ MODELS = {
                                       "ina_late = g * m * (V - E)\n    g = 0.1\n    E = 40\n"),
     "function-positions": ("c.n = 1.5\nc.y = 0.5",
                            "[c]\ndot(n) = k * ceil(n)^2 - n + floor(y)^2 - abs(n - 3)^3 / 4 + (ceil(y) + 1)^0.5\nk = 0.25\n"
-                           "dot(y) = -ceil(n) * y + 2^ceil(y) - sqrt(n)^3 + exp(-y)^2 - (-y)^2 + -(y^2)\n"),
+                           "dot(y) = -ceil(n) * y + 2^ceil(y) - sqrt(n)^3 + exp(-y)^2 - (-y)^2 + -(y^2) + ceil(n - y) + ceil(engine.time / 3 - y) - floor(n - y)\n"),
     "constant-expressions": ("c.x = 1",
                              "[c]\ndot(x) = -r * x + s\nr = 1 / 4\ns = 2 * k\nk = 3\n"),
 }
